@@ -395,6 +395,36 @@ def check_object(W, name, kind, obj, l, sig, seed, do_corrupt):
                 o = W.N.off["wk_params.pairing"]
                 if bobj.raw[o:o + 576] != obj.raw[o:o + 576]:
                     msgs.append("params compressed: recomputed pairing differs from the original")
+            # the unmarshalled OBJECT equals the original, element by element (a marshal that writes a wrong but valid element would
+            # still re-marshal to the same bytes)
+            N = W.N
+
+            def same(field_kind, a, b):
+                return L.call("embedded_pairing_bls12_381_%s_equal" % field_kind, a, b) & 1
+            if kind == "wk_params":
+                for fld, g in (("g", "g2"), ("g1", "g2"), ("g2", "g1"), ("g3", "g1"), ("hsig", "g1")):
+                    o = N.off["wk_params." + fld]
+                    if not same(g, bobj.raw[o:o + N.sz[g]], obj.raw[o:o + N.sz[g]]):
+                        msgs.append("%s comp=%s checked=%s: %s of the unmarshalled parameters differs from the original" % (name, comp, checked, fld))
+                s1 = N.sz["g1"]
+                for i in range(l):
+                    if not same("g1", back.h.raw[s1 * i:s1 * i + s1], W.params.hi(i)):
+                        msgs.append("%s comp=%s checked=%s: h[%d] of the unmarshalled parameters differs from the original" % (name, comp, checked, i))
+                        break
+            elif kind == "wk_secretkey":
+                key = W._curkey
+                for fld, g in (("a0", "g1"), ("a1", "g2"), ("bsig", "g1")):
+                    if not same(g, back.field(fld, N.sz[g]), key.field(fld, N.sz[g])):
+                        msgs.append("secretkey comp=%s checked=%s: %s differs from the original" % (comp, checked, fld))
+                for i in range(min(back.l, key.l)):
+                    if not same("g1", back.slot(i)[1], key.slot(i)[1]):
+                        msgs.append("secretkey comp=%s checked=%s: hexp of free slot %d differs from the original" % (comp, checked, i))
+                        break
+            elif kind in ("wk_ciphertext", "wk_signature", "wk_masterkey"):
+                for fld, g in {"wk_ciphertext": (("b", "g2"), ("c", "g1")), "wk_signature": (("a0", "g1"), ("a1", "g2")), "wk_masterkey": (("g2alpha", "g1"),)}[kind]:
+                    o = N.off[kind + "." + fld]
+                    if not same(g, bobj.raw[o:o + N.sz[g]], obj.raw[o:o + N.sz[g]]):
+                        msgs.append("%s comp=%s checked=%s: %s differs from the original" % (name, comp, checked, fld))
             if kind == "wk_secretkey":
                 key = W._curkey
                 if back.idxs() != key.idxs():
@@ -447,6 +477,10 @@ def shards(ctx):
         for l in (0, 1, 2, 3):
             for sig in (False, True):
                 out.append({"sub": "params", "cfg": cfg, "l": l, "sig": sig})
+        # the slot count as an operand: boundary values (a batch size, a narrow counter or a bit mask over slots breaks at one of them)
+        for l in ((8, 16, 17, 33, 65) if ctx.tier == "quick" else (8, 9, 15, 16, 17, 31, 32, 33, 63, 64, 65, 100, 255, 256, 257)):
+            if cfg == "asm" or l in (17, 33):
+                out.append({"sub": "params", "cfg": cfg, "l": l, "sig": l % 2 == 1, "corrupt": False})
         out.append({"sub": "lq", "cfg": cfg})
     U = c11.universe(ctx)
     vals = wk.values(ctx.seed)
@@ -487,13 +521,15 @@ def run_shard(ctx, shard):
             ctx.fail(case, "; ".join(msgs[:3]), sig="lq:" + msgs[0].split(":")[0][:30])
         return
     case = {"sub": sub, "cfg": shard["cfg"], "l": shard["l"], "sig": shard["sig"], "seed": ctx.seed, "corrupt": shard.get("corrupt", True)}
+    if sub == "params" and shard["l"] > 3:
+        case["with_keys"] = True
     if sub == "params":
         case["history"] = None
     else:
         case["history"] = shard["history"]
     msgs = eval_case(case)
     nslots = shard["l"] if sub == "params" else sum(1 for s in shard["state"][1] if s == wk.FREE)
-    ctx.ok(nslots > 0 or case["corrupt"], "%s:slots%d:%s" % (sub, nslots, "sig" if shard["sig"] else "nosig"), n=2 * (2 if sub == "params" else (4 if shard["sig"] else 3)))
+    ctx.ok(nslots > 0 or case["corrupt"], "%s:slots%s:%s" % (sub, nslots if nslots <= 3 else ">3", "sig" if shard["sig"] else "nosig"), n=2 * (2 if sub == "params" else (4 if shard["sig"] else 3)))
     ctx.sample({k: v for k, v in case.items() if k != "history"}, limit=1)
     if msgs:
         ctx.fail(case, "; ".join(msgs[:3]), sig="%s:%s" % (sub, "corruption-accepted" if "accepts a buffer" in msgs[0] else ("length" if "length" in msgs[0] else "roundtrip")))
